@@ -175,25 +175,44 @@ pub fn small_file(rng: &mut Rng, padding: Pad) -> Option<Vec<u8>> {
 /// Scenario C: update_file (in place: grow / shrink / equal; rebuild) over a faulty file object.
 fn scenario_update(rep: &mut Report, rng: &mut Rng) {
     let pad = *rng.pick(&[Pad::None, Pad::Size(0), Pad::Size(10), Pad::Size(100), Pad::Size(1000)]);
-    let Some(file0) = small_file(rng, pad) else { return };
-    // first (fault-free) edit gives the file a TITLE of length l0; the faulted edit then
-    // replaces it by a value that is equal in length, shorter or longer
+    // a third of the cases judge the very FIRST update of a file as the encoder left it (a TITLE
+    // of l0 characters written through `Options::tag`, padding exactly as requested - possibly none
+    // at all); the others first give the file its TITLE with a fault-free update
+    let fresh = rng.chance(1, 3);
     let l0 = rng.usize(0, 120);
-    let mut f0 = Mem::with_data(file0);
-    let v0 = "a".repeat(l0);
-    let mut rb0 = Mem::new();
-    let first = {
-        let rbr = &mut rb0;
-        metadata::update_file(&mut f0, move || Ok(rbr), |bl: &mut BlockList| -> Result<(), flac_codec::Error> {
-            bl.update::<flac_codec::metadata::VorbisComment>(|vc| vc.set("TITLE", &v0));
-            Ok(())
-        })
+    let file = if fresh {
+        let mut cfg = EncCfg::default_for(1, 16, 44100);
+        cfg.block_size = 16;
+        cfg.padding = pad;
+        cfg.seek = SeekPol::Off;
+        let mut r2 = Rng::new(rng.next());
+        let pcm = flacref::pcm::generate(flacref::pcm::Signal::Sine, 1, 16, 40, &mut r2);
+        let Ok(opts) = make_options(&cfg) else { return };
+        let mut c = std::io::Cursor::new(Vec::new());
+        let Ok(mut w) = flac_codec::encode::FlacSampleWriter::new(&mut c, opts.tag("TITLE", "a".repeat(l0)), cfg.rate, cfg.bps, cfg.channels, None) else { return };
+        if w.write(&pcm).is_err() || w.finalize().is_err() {
+            return;
+        }
+        c.into_inner()
+    } else {
+        let Some(file0) = small_file(rng, pad) else { return };
+        let mut f0 = Mem::with_data(file0);
+        let v0 = "a".repeat(l0);
+        let mut rb0 = Mem::new();
+        let first = {
+            let rbr = &mut rb0;
+            metadata::update_file(&mut f0, move || Ok(rbr), |bl: &mut BlockList| -> Result<(), flac_codec::Error> {
+                bl.update::<flac_codec::metadata::VorbisComment>(|vc| vc.set("TITLE", &v0));
+                Ok(())
+            })
+        };
+        match first {
+            Ok(true) => rb0.data,
+            Ok(false) => f0.data,
+            Err(_) => return,
+        }
     };
-    let file = match first {
-        Ok(true) => rb0.data,
-        Ok(false) => f0.data,
-        Err(_) => return,
-    };
+    rep.count("update_base", if fresh { "as the encoder left it" } else { "after an earlier update" });
     let value_len = match rng.below(3) {
         0 => l0,
         1 => l0.saturating_sub(rng.usize(1, 30)),
